@@ -20,6 +20,7 @@ TECHNIQUE = ("deterministic simulation: seeded search over schedules, mailbox "
              "fault sequences and workloads; prefix-of-sent oracle after every "
              "event")
 RULE += (' Two of eight configurations make both sides dilate as well (dilate-N control messages share the mailbox with application phases).')
+RULE += (' Two further configurations hold long conversations (11..16 messages each way, phase numbers with two digits) on a reordering server.')
 LEVEL_TEXT = ("Seeded exploration (no enumeration) of two real clients + real "
               "mailbox server under a simulated reactor/network; safety oracle "
               "evaluated after every simulated event. Evidence, not proof: a "
